@@ -18,6 +18,7 @@ RULES = [
     Rule('R2:project-let', r'let self_ = self\.project\(\);', 'let self_ = self;', why='A-pin: projection is field access'),
     Rule('R2:project-ref', r'let dropped_keys = self_\.dropped_keys_tx;', 'let dropped_keys = &self_.dropped_keys_tx;', why='projection yields a reference to the field'),
     Rule('R2:project-deref', r'\*self_\.channels_per_key', 'self_.channels_per_key', why='projection yields a reference to the field'),
+    Rule('R3:inner_pin_mut-let', r'let (\w+) = self\.inner_pin_mut\(\);', r'let \1 = &mut self.inner;', why='accessor = projection of field inner, bound to a local'),
     Rule('R3:inner_pin_mut', r'self\.inner_pin_mut\(\)', 'self.inner', why='accessor = projection of field inner'),
     Rule('R5:tc-item', r'Option<Self::Item>', 'Option<ChanItem>', where='sig', why='item type of the wrapped channel is opaque'),
     Rule('R5:tc-error', r'Self::Error', 'ChanErr', where='sig', why='error type of the wrapped channel is opaque'),
@@ -120,7 +121,7 @@ def unit():
                   Rule('R5:new-keymaker-param', r'keymaker: F\)', 'keymaker: Keymaker)', 1, where='sig', why='key function model'),
                   Rule('R5:new-mpsc', r'mpsc::unbounded_channel\(\)', 'dropped_keys_channel()', 1, where='body', why='prelude model of the close-notification queue'),
                   Rule('R5:new-fuse', r'listener\.fuse\(\)', 'fuse_listener(listener)', 1, where='body', why='prelude model of the fused listener'),
-                  Rule('R7:default-map', r'FnvHashMap::default\(\)', 'HashMap::new()', 1, where='body', why='`Default` of (Fnv)HashMap is the empty map (A-hashmap)'),
+                  Rule('R7:default-map', r'FnvHashMap::default\(\)', 'HashMap::new()', '*', where='body', why='`Default` of (Fnv)HashMap is the empty map (A-hashmap)'),
               ],
               pre='broadcast use vstd::std_specs::hash::group_hash_axioms;',
               requires='''
